@@ -1,6 +1,7 @@
 package functions
 
 import (
+	"math"
 	"regexp/syntax"
 
 	"github.com/nyaruka/goflow/excellent/types"
@@ -30,6 +31,43 @@ func CheckRegexCost(pattern string, text string) *types.XError {
 		return types.NewXErrorf("regular expression is too complex to match against text of %d bytes", len(text))
 	}
 	return nil
+}
+
+// RegexWork is what compiling the given pattern and matching it against the given text take, in the units of the budget
+// of an evaluation. It is estimated from the parsed pattern, because compiling is part of what is being estimated.
+func RegexWork(pattern string, text string) int {
+	parsed, err := syntax.Parse(pattern, syntax.Perl)
+	if err != nil {
+		return 0
+	}
+	size := regexProgramSize(parsed)
+	work := size*8 + int64(len(text)+1)*size*int64(parsed.MaxCap()+1)/20
+	if work < 0 || work > math.MaxInt32 {
+		return math.MaxInt32
+	}
+	return int(work)
+}
+
+// the number of instructions that a parsed pattern compiles to, more or less
+func regexProgramSize(re *syntax.Regexp) int64 {
+	size := int64(1)
+	for _, sub := range re.Sub {
+		size += regexProgramSize(sub)
+	}
+
+	switch re.Op {
+	case syntax.OpLiteral:
+		size += int64(len(re.Rune))
+	case syntax.OpCapture:
+		size++
+	case syntax.OpRepeat:
+		times := int64(max(re.Min, re.Max, 1))
+		if re.Max < 0 {
+			times++
+		}
+		size *= times
+	}
+	return min(size, math.MaxInt32)
 }
 
 func extractWords(text string, delimiters string) []string {
